@@ -59,6 +59,8 @@ def shapes():
         'idict': lambda: {1: 'one', 2: 'two', 'name': 'n', True: 'yes', None: 'no', 2.5: 'f'},
         'rows': lambda: [{1: D(1), 'a': [D(1)]}, {2: D(2)}],
         'short-rows': lambda: [[D(1), D(2), D(3)], [D(4)], [D(5), D(6)]],
+        'long-desc': lambda: [D(100 - i) for i in range(100)],
+        'long-strs': lambda: ['s%03d' % (200 - i) for i in range(150)],
     }
 
 
